@@ -1,4 +1,5 @@
 import ExprModel.Spec.Eval
+import ExprModel.Spec.EvalLoc
 import ExprModel.Opt.Driver
 import ExprModel.Drv.Code
 /- driver stage `speceval`: the reference evaluator on a (typed) tree -/
@@ -61,6 +62,25 @@ def handleSpec : List Sexp → Sexp
     | _, _, _ => .list [.atom "bad-request"]
   | _ => .list [.atom "bad-request"]
 
-def specHandlers : List (String × (List Sexp → Sexp)) := [("speceval", handleSpec)]
+/-- `(specloc <budget> (flags <rangeSigned> <sliceToFirst>) <cast|_> <env> <node>)`: the instrumented reference
+    evaluator `Spec.runLoc` → `(ok)` or `(err <class> <line> <col>)`: the location of the node that raises the failure -/
+def handleSpecLoc : List Sexp → Sexp
+  | [.atom "specloc", budget, .list [.atom "flags", a, b], .atom cast, env, node] =>
+    match budget.asInt, Val.ofSexp env, Node.ofSexp node with
+    | some bd, some env, some n =>
+      let c : Spec.SCfg := { world := mkWorld [], env := env, budget := bd,
+                             rangeSizeSigned := a.asBool.getD false, sliceToFirst := b.asBool.getD false }
+      let cst := match cast with
+        | "int64" => some 0
+        | "float64" => some 1
+        | _ => none
+      if refuseRange env n then .list [.atom "refused", .atom "huge-range"] else
+      match (Spec.runLoc c cst n).1 with
+      | .ok _ => .list [.atom "ok"]
+      | .error (e, l) => .list [.atom "err", .atom e.name, Sexp.nat l.line, Sexp.nat l.col]
+    | _, _, _ => .list [.atom "bad-request"]
+  | _ => .list [.atom "bad-request"]
+
+def specHandlers : List (String × (List Sexp → Sexp)) := [("speceval", handleSpec), ("specloc", handleSpecLoc)]
 
 end ExprModel.Drv
